@@ -279,6 +279,10 @@ impl Interpreter {
                 let a = state.stack.pop_bytes()?;
                 let b = state.stack.pop_bytes()?;
 
+                if a.len() != b.len() {
+                    return Err(InterpreterError::InvalidStackOperation("bitwise operands must have the same length"));
+                }
+
                 let and_array = b.iter().zip(a.iter()).map(|(&x1, &x2)| x1 & x2).collect();
 
                 state.stack.push_bytes(and_array);
@@ -287,6 +291,10 @@ impl Interpreter {
                 let a = state.stack.pop_bytes()?;
                 let b = state.stack.pop_bytes()?;
 
+                if a.len() != b.len() {
+                    return Err(InterpreterError::InvalidStackOperation("bitwise operands must have the same length"));
+                }
+
                 let or_array = b.iter().zip(a.iter()).map(|(&x1, &x2)| x1 | x2).collect();
 
                 state.stack.push_bytes(or_array);
@@ -294,6 +302,10 @@ impl Interpreter {
             OpCodes::OP_XOR => {
                 let a = state.stack.pop_bytes()?;
                 let b = state.stack.pop_bytes()?;
+
+                if a.len() != b.len() {
+                    return Err(InterpreterError::InvalidStackOperation("bitwise operands must have the same length"));
+                }
 
                 let xor_array = b.iter().zip(a.iter()).map(|(&x1, &x2)| x1 ^ x2).collect();
 
